@@ -99,6 +99,7 @@ class CtlRun(object):
     def setup(self):
         from txtorcon.torcontrolprotocol import TorControlProtocol
         sim, ch, P = self.sim, self.ch, self.P
+        sim.fp_keep = frozenset(['CUT'])
         self.n_cmds = ch.draw(P['max_cmds'] + 1, 'ncmds')
         self.max_queue = 1 + ch.draw(P.get('max_queue', 8), 'maxq')
         self.p_5xx = ch.pick([0, 1, 3], 'p5xx')
